@@ -175,6 +175,25 @@ def run(chk, tier, seed):
                     gjobs.append((len(gjobs), ext, nsec, other, variant, forged))
         gev = common.pmap(geom_case, gjobs)
         events += gev
+        # name hints come from the end of the file name only: the same image under directories and stems that contain ".sdd.", ".dsd."
+        # and the like is identified (variant, geometry, listing) exactly as in a plain directory
+        def path_case(args):
+            pi, ext, nsec, total, where = args
+            img = mkdisc.surface_dfs(nsec, 9, title=b"PATHS", total=total, entries=[mkdisc.entry("LOW", length=100, start=6)])
+            dname, stem = where
+            ddir = os.path.join(scratch, "pth%d" % pi, dname) if dname else os.path.join(scratch, "pth%d" % pi)
+            os.makedirs(ddir, exist_ok=True)
+            path = os.path.join(ddir, "%s.%s" % (stem, ext))
+            mkdisc.write(path, bytes(img))
+            ob = observe(dfs, path, total)
+            x = dict(hdfs=False, aa2=False, start=6, flen0=False, spt18=False, totok=False, vols="none", lastok=True, cat0=True, total=total)
+            return dict(ob, e="ident", id=300000 + pi, d=x, ext=ext, g="paths-%s-%d-%d" % (ext, nsec, total))
+        pjobs2 = []
+        for ext, nsec, total in (("ssd", 400, 400), ("ssd", 800, 600), ("sdd", 720, 400), ("sdd", 720, 700)):
+            for where in (("", "game"), ("old.sdd.images", "game"), ("backups.dsd.d", "game"), ("", "game.dsd"), ("rel.ddd.dir", "game"), ("v1.2 with space", "game"),
+                          ("discs.ssd", "game"), ("", "game.sdd.bak")):
+                pjobs2.append((len(pjobs2), ext, nsec, total, where))
+        events += common.pmap(path_case, pjobs2)
         # identification is per surface: a disc attached after another image file of a different variant (two --file options), or
         # lying on the second side of a two-sided image whose first side is of a different variant, is still what its own markers say
         by_variant = {}
